@@ -54,6 +54,12 @@ func genMesh(src *choice.Source, allow uint32, st *Stats) []*model3d.Triangle {
 		st.shape("near-twin vertices")
 	}
 	tris := meshgen.Triangles(src, pool, nf)
+	if src.Chance(1, 40) {
+		// (drawn last) a file far larger than any internal buffer: hundreds of KiB
+		nf = 1400 + src.Intn(5000)
+		tris = meshgen.Triangles(src, pool, nf)
+		st.shape("big file (1400..6400 faces)")
+	}
 	st.Faces += int64(nf)
 	st.NonTrivial = nf > 0
 	st.shape(fmt.Sprintf("faces=%d", bucket(nf)))
